@@ -52,6 +52,32 @@ CHECKS = {
              "additional-target column (recomputed by the specification at the row) for 1/2/5 agents and T in 1..3.",
         note="Trusted: TLC, Pipeline!PanelIndex/PanelColumns/TargetVal.",
         technique="TLC trace validation of the recorded frame structure and target columns", ref="§6 C13"),
+    "C08": dict(
+        text="For deterministic models a reference batch and its permutation, a shuffled subset, a batch with duplicated agents "
+             "and the batch with reversed initial_states key order are simulated; TLC (TracePipeline!RelSimFail) requires "
+             "identical per-agent paths; for stochastic models identical period-0 decisions and values.",
+        note="Code-vs-code relation judged by TLC on recorded frames; batches of up to 8 (thorough 64) agents.",
+        technique="TLC trace validation of relations between recorded simulation frames of transformed batches", ref="§6 C08"),
+    "C17": dict(
+        text="MC_StateSpace: for every filter mask over 8 (thorough 11) shapes TLC checks that the implementation-shaped tables "
+             "(meshgrid[mask], any over choice axes, ranks with -1, repeat(arange)) satisfy the wording of the property; the same "
+             "TLC-enumerated masks and seeded models with several/period-dependent filters are replayed into the real "
+             "create_state_choice_space and judged by TLC (TraceUnits!JudgeScs).",
+        note="Exhaustive over the enumerated masks in the thorough tier (<= 12 cells); quick replays all masks <= 6 cells + a sample.",
+        technique="TLC exhaustive enumeration of masks + replay into the code + TLC trace validation", ref="§6 C17"),
+    "C18": dict(
+        text="MC_Argmax: every array over {0,1,2} x every mask x every ordered axes subset (shapes <= 4, thorough 6 cells): the "
+             "implementation-shaped arg-max satisfies the declarative clause; the same cases run through lcm.argmax.argmax eagerly, "
+             "jitted and fused into a larger jitted computation, plus segment_argmax and get_solve_discrete_problem cases; TLC judges "
+             "every output position.",
+        note="Fused inexact cases are judged on values with tolerance 2^-8, never on arg-max identity.",
+        technique="TLC exhaustive small-scope enumeration + replay + TLC trace validation", ref="§6 C18"),
+    "C19": dict(
+        text="MC_Dispatch enumerates every signature (<= 3, thorough 4 parameters, every legal kind pattern) x every ordered subset of "
+             "mapped names split into product/joint part and every call shape; each becomes real productmap/vmap_1d/spacemap/"
+             "allow_only_kwargs/allow_args calls whose every output entry (f = sum 10^position x) or rejection is judged by TLC.",
+        note="Exhaustive within the stated bounds; array lengths 2,3,4,... make the axis order visible.",
+        technique="TLC exhaustive enumeration of signatures/calls + replay + TLC trace validation", ref="§6 C19"),
 }
 REASON_PENDING = "check under construction in this round (DESIGN.md §10); not yet claimed"
 
